@@ -40,6 +40,9 @@ pub struct WorldOpts {
     /// code, a second code cell, two data cells), transaction 1 two dep-group cells over them -
     /// the layout `setup_system_cell_cache` expects.  All of them unspendable.
     pub system_cells: bool,
+    /// activation epoch of the 2023 hard fork (VM version 2, hash type data2); default 0 = active
+    /// from genesis like every other feature
+    pub ckb2023_epoch: u64,
 }
 
 impl Default for WorldOpts {
@@ -56,6 +59,7 @@ impl Default for WorldOpts {
             witness_lock: false,
             primary_epoch_reward: None,
             system_cells: false,
+            ckb2023_epoch: 0,
         }
     }
 }
@@ -209,7 +213,11 @@ pub fn consensus(opts: &WorldOpts) -> Consensus {
         .epoch_duration_target(opts.epoch_length * 8)
         .median_time_block_count(3)
         .cellbase_maturity(opts.cellbase_maturity)
-        .hardfork_switch(HardForks::new_dev());
+        .hardfork_switch(if opts.ckb2023_epoch == 0 {
+            HardForks::new_dev()
+        } else {
+            HardForks { ckb2021: ckb_types::core::hardfork::CKB2021::new_dev_default(), ckb2023: ckb_types::core::hardfork::CKB2023::new_with_specified(opts.ckb2023_epoch) }
+        });
     if let Some(v) = opts.max_block_bytes {
         b = b.max_block_bytes(v);
     }
